@@ -64,6 +64,7 @@ partial def addlRefs (j : Json) : List GName :=
 def sortNames (l : List GName) : List GName := l.foldl (fun acc n => insertSortedName n acc) []
 
 def namesJson (l : List GName) : Json := Json.arr ((sortNames l).map str).toArray
+def namesJsonRaw (l : List GName) : Json := Json.arr (l.map str).toArray
 
 def opSeeds (fps : Fps) (op : Json) : List GName :=
   let schemaOf (j : Json) : List GName := match j.getObjVal? "schema" with | .ok s => collectRef fps (sOf s) | _ => []
@@ -123,11 +124,95 @@ def isLocalTypeName (s : String) : Bool :=
   | c :: _ => c.isUpper && !builtinTypes.contains s
   | [] => false
 
+/-- wrapper chain as the harness spells it ("value", "option.box", "vec.box", …) -/
+def viaOf (s : String) : List Via :=
+  if s == "value" then [] else (s.splitOn ".").map fun w =>
+    if w == "value" then Via.value else if w == "option" then Via.option else if w == "box" then Via.box
+    else if w == "vec" then Via.vec else if w == "map" then Via.map else Via.other
+
+def eedgesOf (es : Json) : List EEdge := ((arr es).toOption.getD []).filterMap fun e => match e with
+  | .arr #[.str n, .str via] => some { target := n.toList, via := viaOf via }
+  | _ => none
+
+/-- every field / variant payload edge of one emitted item -/
+def defEdges (d : Json) : List EEdge :=
+  match (d.getObjValAs? String "kind").toOption with
+  | some "struct" => ((arr (fieldD d "fields" (Json.arr #[]))).toOption.getD []).flatMap fun f => eedgesOf (fieldD f "edges" (Json.arr #[]))
+  | some "enum" => ((arr (fieldD d "variants" (Json.arr #[]))).toOption.getD []).flatMap fun v => eedgesOf (fieldD v "edges" (Json.arr #[]))
+  | some "type" => eedgesOf (fieldD d "edges" (Json.arr #[]))
+  | _ => []
+
+/-- `$ref` members of the oneOf / anyOf unions that sit INSIDE a schema (members, array items, inline objects):
+the unions `convert_struct` turns into enums of their own while it converts the enclosing schema -/
+partial def inlineUnionRefs (comps : List String) (top : Bool) (j : Json) : List GName :=
+  -- a structural copy of a component is named through the schema-identity cache, nothing is converted for it
+  if !top && comps.contains j.compress then [] else
+  let here : List GName := if top then [] else
+    ["oneOf", "anyOf"].flatMap fun k => match j.getObjVal? k with
+      | .ok (.arr a) => a.toList.filterMap fun v => match v.getObjVal? "$ref" with
+          | .ok (.str r) => if r.startsWith refPrefix then some (r.drop refPrefix.length).toString.toList else none
+          | _ => none
+      | _ => []
+  let props := match j.getObjVal? "properties" with
+    | .ok (.obj m) => m.toList.flatMap fun (_, v) => inlineUnionRefs comps false v
+    | _ => []
+  let items := match j.getObjVal? "items" with | .ok (.obj m) => inlineUnionRefs comps false (.obj m) | _ => []
+  here ++ props ++ items
+
+/-- F10-3: with helper constructors on, the enum built for an inline union asks for the struct of every `$ref`
+member (`MethodGenerator::resolve_struct_def` → `convert_struct` on demand); that conversion builds the member's
+own inline unions, and so on: a cycle made only of "schema —inline union member→ schema" steps never ends -/
+def KnownGeneratorOverflow (schemas : List (String × Json)) (noHelpers : Bool) : Bool :=
+  let hdeps : List (GName × List GName) := schemas.map fun (k, v) => (k.toList, dedup (inlineUnionRefs (schemas.map fun (_, w) => w.compress) true v))
+  !noHelpers && hdeps.any fun p => cyclic hdeps p.1 == some true
+
+/-- (`$ref` targets written outside structural copies of components, components copied) in a schema: an inline
+sub-schema that is identical to a component is named through the schema-identity cache (`get_type_ref`), and the
+`$ref`s inside it belong to that component's own type -/
+partial def refsAndCopies (fps : Fps) (comps : List (String × String)) (top : Bool) (j : Json) : List GName × List GName :=
+  match j with
+  | .obj m =>
+    -- an inline union over the `$ref` set of a component union is that union BY NAME (`find_union_by_refs` → `type_ref`)
+    let byFp : Option GName := if top then none else
+      ["oneOf", "anyOf"].findSome? fun k => match j.getObjVal? k with
+        | .ok (.arr a) =>
+          let fp := fingerprint (a.toList.map sOf)
+          if fp.length ≥ 2 then fpLookup fps fp else none
+        | _ => none
+    if let some n := byFp then ([n], []) else
+    let selfCopy : List GName := if top then [] else (comps.filter fun c => c.2 == j.compress).map fun c => c.1.toList
+    if !selfCopy.isEmpty then ([], selfCopy) else
+    let own : List GName := match j.getObjVal? "$ref" with
+      | .ok (.str r) => if r.startsWith refPrefix then [(r.drop refPrefix.length).toString.toList] else []
+      | _ => []
+    m.toList.foldl (fun acc (k, v) =>
+      if k == "mapping" || k == "enum" || k == "example" || k == "examples" || k == "default" || k == "const" || k == "discriminator" then acc
+      else let r := refsAndCopies fps comps false v; (acc.1 ++ r.1, acc.2 ++ r.2)) (own, [])
+  | .arr a => a.toList.foldl (fun acc v => let r := refsAndCopies fps comps false v; (acc.1 ++ r.1, acc.2 ++ r.2)) ([], [])
+  | _ => ([], [])
+
+/-- a schema and the allOf parents it inherits members from -/
+def withParents (schemas : List (String × Json)) (k : String) : List String :=
+  let parentsOf (n : String) : List String := match schemas.lookup n with
+    | some v => (match v.getObjVal? "allOf" with
+      | .ok (.arr a) => a.toList.filterMap fun x => match x.getObjVal? "$ref" with
+          | .ok (.str r) => if r.startsWith refPrefix then some (r.drop refPrefix.length).toString else none
+          | _ => none
+      | _ => [])
+    | none => []
+  (List.range schemas.length).foldl (fun acc _ => (acc ++ acc.flatMap parentsOf).eraseDups) [k]
+
 def emit : Handler := fun req => do
   let inp ← field req "in"
   let impl ← field req "impl"
   let scopeAll := (fieldD (fieldD inp "cfg" (Json.mkObj [])) "all_schemas" (Json.bool false)) == Json.bool true
   let mode := (fieldD inp "mode" (Json.str "client-mod")).getStr?.toOption.getD "client-mod"
+  if (impl.getObjVal? "abort").toOption.isSome then
+    -- the generator process died (stack overflow): never a pass; attributed only to the one shape known to do that
+    let schemasJ := match inp.getObjVal? "schemas" with | .ok (.obj m) => m.toList | _ => []
+    let noHelpers := (fieldD (fieldD inp "cfg" (Json.mkObj [])) "no_helpers" (Json.bool false)) == Json.bool true
+    let cls := if KnownGeneratorOverflow schemasJ noHelpers then ["KnownGeneratorOverflow"] else []
+    return Json.mkObj [("model", Json.null), ("match", true), ("judge", verdict false cls "the generator process died while generating (stack overflow / abort)"), ("branch", "aborted")]
   if (impl.getObjVal? "err").toOption.isSome || (impl.getObjVal? "panic").toOption.isSome then
     let expected := (fieldD inp "expect_fail" (Json.bool false)) == Json.bool true
     return Json.mkObj [("model", Json.null), ("match", true), ("judge", verdict expected (if expected then [] else []) "generation failed or panicked"), ("branch", "failed")]
@@ -172,7 +257,42 @@ def emit : Handler := fun req => do
   let defaultDeps : List (GName × List GName) := defs.map fun d =>
     let derives := fieldD d "derives_default" (Json.bool false) == Json.bool true || (d.getObjValAs? String "kind").toOption == some "type"
     (((d.getObjValAs? String "name").toOption.getD "").toList, if derives then dedup (edgesOf d ["value", "box"] true true) else [])
-  let sizeCyc := valueDeps.filter fun p => cyclic valueDeps p.1 == some true
+  -- the emitted type graph with its wrapper chains; only edges between emitted items count
+  let egraph : EGraph := defs.map fun d => (((d.getObjValAs? String "name").toOption.getD "").toList,
+    (defEdges d).filter fun e => typeDefs.contains (String.ofList e.target))
+  -- what each schema-derived holder refers to BY NAME and what it holds as a structural COPY of a component
+  let schemasJ0 := match inp.getObjVal? "schemas" with | .ok (.obj m) => m.toList | _ => []
+  let rustName0 (k : String) : String := String.ofList (Oas3.Naming.toRustTypeName Oas3.Gen.prelude Oas3.Client.idTr k.toList)
+  let rustToSchema : List (String × String) := schemasJ0.map fun (k, _) => (rustName0 k, k)
+  let compTexts : List (String × String) := schemasJ0.map fun (k, v) => (k, v.compress)
+  let fps0 := unionFps (schemasJ0.map fun (k, v) => (k.toList, sOf v))
+  -- the schema a holder type is made from: its own name, or `<X>Base` = the member struct of the discriminated base `X`
+  let holderSchema (dn : String) : Option String := match rustToSchema.lookup dn with
+    | some k => some k
+    | none => if dn.endsWith "Base" then
+        (rustToSchema.lookup (dn.dropEnd 4).toString).bind fun k =>
+          if ((schemasJ0.lookup k).map fun v => (v.getObjVal? "discriminator").toOption.isSome) == some true then some k else none
+      else none
+  let ownSelf (dn : String) : Option (List GName × List GName) := (holderSchema dn).bind fun k =>
+    (schemasJ0.lookup k).map fun v => refsAndCopies fps0 compTexts true v
+  let ownOf (dn : String) : Option (List GName × List GName) := (holderSchema dn).map fun k =>
+    (withParents schemasJ0 k).foldl (fun acc n => match schemasJ0.lookup n with
+      | some v => let r := refsAndCopies fps0 compTexts true v; (acc.1 ++ r.1, acc.2 ++ r.2)
+      | none => acc) ([], [])
+  /- F10-4: an edge that exists only because an inline sub-schema is a structural copy of component `T` (typed `T`
+  through the schema-identity cache, never boxed, and not a dependency edge) -/
+  -- components of which SOME schema of the document holds a structural copy
+  let anyCopies : List GName := dedup (schemasJ0.flatMap fun (_, v) => (refsAndCopies fps0 compTexts true v).2)
+  -- the holder's schema (with its allOf parents) never names `t` by `$ref`, and the document has a structural copy of
+  -- `t` (in the holder itself, or in a schema whose members the holder takes over): the edge can only be the copy route
+  let copyOnly (dn : String) (t : GName) : Bool := match ownOf dn, rustToSchema.lookup (String.ofList t) with
+    | some (rs, _), some k => anyCopies.contains k.toList && !rs.contains k.toList
+    | _, _ => false
+  let egraphNoCopy : EGraph := egraph.map fun (n, es) => (n, es.filter fun e => !copyOnly (String.ofList n) e.target)
+  let hasIndirection := emittedCycleHasIndirection egraph
+  let sizeCycNames := dedup (sizeCycles egraph)
+  let sizeCyc := valueDeps.filter fun p => cyclic valueDeps p.1 == some true || sizeCycNames.contains p.1
+  let certDisagrees := hasIndirection != sizeCycNames.isEmpty
   let defCyc := defaultDeps.filter fun p => cyclic defaultDeps p.1 == some true
   -- (4) converse: every emitted SCHEMA type is transitively referenced (anywhere: members, items, map values,
   -- compositions, mappings, parameters at both levels, bodies) by a selected operation — spec-level closure
@@ -198,9 +318,52 @@ def emit : Handler := fun req => do
       let tn := String.ofList (Oas3.Naming.toRustTypeName Oas3.Gen.prelude Oas3.Client.idTr k.toList)
       if typeDefs.contains tn && !reach.contains k.toList && !rustReach.contains tn.toList then some tn else none).eraseDups
   let judges : List String := ((arr (fieldD inp "judges" (Json.arr #["closed", "orphans", "size", "default"]))).toOption.getD []).filterMap fun x => x.getStr?.toOption
+  /- round trip through untagged unions (judge "rt"): for every component union of `$ref` members that is emitted as an
+  untagged enum of struct payloads, the full document of every member (valid against the union) must be decoded as
+  a variant that keeps all its keys - under the variant order AS EMITTED -/
+  let strsOf (j : Json) : List GName := ((arr j).toOption.getD []).filterMap fun x => x.getStr?.toOption.map String.toList
+  let refOf (v : Json) : Option String := match v.getObjVal? "$ref" with
+    | .ok (.str r) => if r.startsWith refPrefix then some (r.drop refPrefix.length).toString else none
+    | _ => none
+  let unbox (t : String) : String := let t := t.replace " " ""; if t.startsWith "Box<" && t.endsWith ">" then ((t.drop 4).dropEnd 1).toString else t
+  let rtUnions : List (String × String × List String × List UVariant) := if !judges.contains "rt" then [] else schemasJ0.filterMap fun (k, v) =>
+    let kw := if (v.getObjVal? "oneOf").toOption.isSome then "oneOf" else "anyOf"
+    let members := ((arr (fieldD v kw (Json.arr #[]))).toOption.getD []).filterMap refOf
+    let en := defs.find? fun d => (d.getObjValAs? String "name").toOption == some (rustName0 k) && (d.getObjValAs? String "kind").toOption == some "enum"
+    match en with
+    | some e =>
+      if members.length < 2 || (v.getObjVal? "discriminator").toOption.isSome || fieldD e "untagged" (Json.bool false) != Json.bool true then none else
+      let vs : List (Option UVariant) := ((arr (fieldD e "variants" (Json.arr #[]))).toOption.getD []).map fun va =>
+        match (arr (fieldD va "tys" (Json.arr #[]))).toOption.getD [] with
+        | [.str t] =>
+          (defs.find? fun d => (d.getObjValAs? String "name").toOption == some (unbox t) && (d.getObjValAs? String "kind").toOption == some "struct").map fun sd =>
+            let fs := (arr (fieldD sd "fields" (Json.arr #[]))).toOption.getD []
+            let wire (f : Json) : GName := ((f.getObjValAs? String "wire").toOption.getD "").toList
+            ({ payload := (unbox t).toList, required := (fs.filter fun f => fieldD f "optional" (Json.bool false) != Json.bool true).map wire,
+               wires := fs.map wire, closed := (strsOf (fieldD sd "serde" (Json.arr #[]))).contains "serde(deny_unknown_fields)".toList } : UVariant)
+        | _ => none
+      if vs.any Option.isNone then none else some (k, kw, members, vs.filterMap id)
+    | none => none
+  -- (union, member, reason) of every valid member document that does not survive; `specToo`: it would not survive the
+  -- declaration order of the spec either (then the loss is the spec author's order, not a reordering)
+  let rtLosses : List (String × String × Bool) := rtUnions.flatMap fun (k, kw, members, vs) =>
+    let memberInfo (m : String) : List GName × List GName × Bool := match schemasJ0.lookup m with
+      | some sv => (strsOf (fieldD sv "required" (Json.arr #[])), (match sv.getObjVal? "properties" with | .ok (.obj pm) => pm.toList.map fun (pk, _) => pk.toList | _ => []),
+                    fieldD sv "additionalProperties" Json.null == Json.bool false)
+      | none => ([], [], false)
+    let validates (m : String) (keys : List GName) : Bool := let (req, props, closed) := memberInfo m; req.all keys.contains && (!closed || keys.all props.contains)
+    let specOrder := expectedVariantOrder (members.map fun m => (rustName0 m).toList) (vs.map (·.payload))
+    let vsSpec := specOrder.filterMap fun n => vs.find? (·.payload == n)
+    members.filterMap fun m =>
+      let keys := (memberInfo m).2.1
+      let valid := if kw == "anyOf" then validates m keys else (members.filter fun m' => validates m' keys).length == 1
+      if !valid || keys.isEmpty || keysPreserved vs keys then none else some (k, m, !keysPreserved vsSpec keys)
+  let rtOrderModel : List Json := rtUnions.map fun (k, _, members, vs) => Json.arr #[Json.str k, namesJsonRaw (expectedVariantOrder (members.map fun m => (rustName0 m).toList) (vs.map (·.payload)))]
+  let rtOrderImpl : List Json := rtUnions.map fun (k, _, _, vs) => Json.arr #[Json.str k, namesJsonRaw (vs.map (·.payload))]
   let undefinedNames := if judges.contains "closed" then undefinedNames else []
   let dupTypes := if judges.contains "closed" then dupTypes else []
   let sizeCyc := if judges.contains "size" then sizeCyc else []
+  let certDisagrees := judges.contains "size" && certDisagrees
   let defCyc := if judges.contains "default" then defCyc else []
   let orphans := if judges.contains "orphans" then orphans else []
   let judge :=
@@ -224,7 +387,11 @@ def emit : Handler := fun req => do
         else if typeDefs.any (fun d => d != u && d.toLower == u.toLower) then "KnownTypeNameCaseMismatch" else ""
       verdict false (if classes.contains "" then [] else classes.eraseDups) s!"mentioned but not defined: {undefinedNames}"
     else if !dupTypes.isEmpty then verdict false [] s!"defined more than once: {dupTypes}"
-    else if !sizeCyc.isEmpty then verdict false [] s!"by-value containment cycle (infinite size): {sizeCyc.map (fun p => String.ofList p.1)}"
+    else if !sizeCyc.isEmpty then
+      -- attributed to the copy route only when every by-value cycle passes through such an edge
+      let cls := if egraphNoCopy != egraph && emittedCycleHasIndirection egraphNoCopy && (sizeCycles egraphNoCopy).isEmpty then ["KnownCopyByValueCycle"] else []
+      verdict false cls s!"by-value containment cycle (infinite size): {sizeCyc.map (fun p => String.ofList p.1)}"
+    else if certDisagrees then verdict false [] "the rank certificate and the cycle test on the emitted by-value graph disagree"
     else if !defCyc.isEmpty then
       -- attribute only when EVERY type on a Default cycle is explained by the spec-level edges of its schema
       let specEdges : List (String × String × String) := ((arr (fieldD inp "edges" (Json.arr #[]))).toOption.getD []).filterMap fun e => match e with
@@ -232,16 +399,26 @@ def emit : Handler := fun req => do
       let specNameOf (rn : String) : String :=
         match (specEdges.flatMap fun e => [e.1, e.2.2]).find? (fun sn => String.ofList (Oas3.Naming.toRustTypeName Oas3.Gen.prelude Oas3.Client.idTr sn.toList) == rn) with
         | some sn => sn | none => rn
+      let inlineEnums : List String := (defs.filter fun d => (d.getObjValAs? String "kind").toOption == some "enum").filterMap fun d =>
+        match (d.getObjValAs? String "name").toOption with
+        | some n => if schemasJ.any (fun (k, _) => String.ofList (Oas3.Naming.toRustTypeName Oas3.Gen.prelude Oas3.Client.idTr k.toList) == n) || specEdges.any (fun e => specNameOf e.1 == n) then none else some n
+        | none => none
       let classOf (rn : String) : String :=
         let n := specNameOf rn
         -- a `disc` edge X→n makes n an allOf child of X (it inherits X's members)
         let ks := (specEdges.filter fun e => e.1 == n).map (·.2.1) ++ (if specEdges.any (fun e => e.2.1 == "disc" && e.2.2 == n) then ["allOf"] else [])
         if ks.contains "oneOf" || ks.contains "anyOf" then "KnownDefaultRecursionUnion"
-        else if ks.contains "req" || ks.contains "allOf" then "KnownDefaultRequiredCycle"
+        else if ks.contains "req" || ks.contains "allOf" || ks.contains "uOneReq" then "KnownDefaultRequiredCycle"
+        -- the enum emitted for an INLINE union (not a component): it is on a Default cycle only through its
+        -- `#[default]` variant, i.e. that variant leads back to it
+        else if inlineEnums.contains rn then "KnownDefaultRecursionUnion"
         else ""
       let classes := defCyc.map fun p => classOf (String.ofList p.1)
       verdict false (if classes.contains "" then [] else classes.eraseDups) s!"Default::default() recursion: {defCyc.map (fun p => String.ofList p.1)}"
     else if !orphans.isEmpty then verdict false [] s!"emitted but not used by any selected operation: {orphans}"
+    else if !rtLosses.isEmpty then
+      verdict false (if rtLosses.all (·.2.2) then ["KnownUntaggedShadow"] else [])
+        s!"a valid document does not round-trip through the untagged union (an earlier variant accepts it and drops its members): {rtLosses.map fun l => l.1 ++ "/" ++ l.2.1}"
     else verdict true []
   -- model (documents with groups of operations that share a response shape): the response enums that stay
   -- after `ResponseEnumDeduplicator` = one canonical enum per response signature of the selected operations
@@ -251,11 +428,53 @@ def emit : Handler := fun req => do
   let respPairs : List (GName × GName) := gops.filterMap fun g => match g with
     | .arr #[.str id, shape] => if selIds.contains id then some ((rustNameOf (rustNameOf id ++ "Response")).toList, shape.compress.toList) else none
     | _ => none
+  -- model of the boxing rule: for every emitted reference BY NAME to a component schema's type, whether it carries a Box
+  let schemaS : List (GName × S) := schemasJ.map fun (k, v) => (k.toList, sOf v)
+  let sdeps := depsOf schemaS
+  let discBases : List String := schemasJ.filterMap fun (k, v) => if (v.getObjVal? "discriminator").toOption.isSome then some (rustNameOf k) else none
+  -- the types an operation brings (request structs, response enums) hold their payloads as declared
+  let opPrefixes : List String := match (fieldD inp "spec" Json.null).getObjVal? "paths" with
+    | .ok (.obj m) => m.toList.flatMap fun (_, item) => match item with
+      | .obj mm => mm.toList.filterMap fun (_, op) => match op.getObjVal? "operationId" with | .ok (.str i) => some (rustNameOf i) | _ => none
+      | _ => []
+    | _ => []
+  -- a schema that is a discriminated base AND a oneOf/anyOf union at once is outside the rule's grammar (C14)
+  let mixedUnion : List String := schemasJ.filterMap fun (k, v) =>
+    if (v.getObjVal? "discriminator").toOption.isSome && ((v.getObjVal? "oneOf").toOption.isSome || (v.getObjVal? "anyOf").toOption.isSome) then some (rustNameOf k) else none
+  let boxRows (useModel : Bool) : List Json := (defs.filter fun d =>
+      let dn := (d.getObjValAs? String "name").toOption.getD ""
+      !(opPrefixes.any fun p => dn.startsWith p) && !mixedUnion.contains dn).flatMap fun d =>
+    let dn := (d.getObjValAs? String "name").toOption.getD ""
+    -- `$ref`s written in the holder's own schema; a target that is reached only as a structural COPY of a component
+    -- (schema-identity cache, `get_type_ref`) is named without consulting the boxing rule
+    let own := ownOf dn
+    -- an enum with payloads that is not `#[serde(untagged)]` dispatches on a tag: a discriminated base (also one
+    -- that inherits its discriminator through allOf)
+    let isDiscEnum := (d.getObjValAs? String "kind").toOption == some "enum" && (discBases.contains dn || fieldD d "untagged" (Json.bool true) == Json.bool false)
+    (defEdges d).filterMap fun e =>
+      match rustToSchema.lookup (String.ofList e.target) with
+      | some k =>
+        let byCopy := match own with | some (_, cs) => cs.contains k.toList && !isDiscEnum | none => false
+        let byName := match own with | some (rs, _) => rs.contains k.toList | none => true
+        -- both a copy and a `$ref` of the same component in one holder: the two members cannot be told apart by name
+        -- a copy INHERITED from an allOf parent is re-read from the merged schema, which need not be identical to the
+        -- component any more: the rule does not say which way it goes
+        let inheritedCopy := (byCopy && (match ownSelf dn with | some (_, cs) => !cs.contains k.toList | none => false)) ||
+          (!byCopy && !byName && own.isSome && anyCopies.contains k.toList)
+        if (byCopy && byName) || inheritedCopy then none else
+        let b : Json := if useModel then (if byCopy then Json.bool false else match expectBoxedAt sdeps isDiscEnum e.via k.toList with | some b => Json.bool b | none => Json.null) else Json.bool (e.via.contains Via.box)
+        some (Json.arr #[Json.str dn, str e.target, b])
+      | none => none
+  let boxModel := if schemasJ.isEmpty || !judges.contains "size" then Json.null else Json.arr (boxRows true).toArray
+  let boxImpl := if schemasJ.isEmpty || !judges.contains "size" then Json.null else Json.arr (boxRows false).toArray
+  let boxDiff : List Json := if boxModel == boxImpl then [] else ((boxRows true).zip (boxRows false)).filterMap fun (a, b) => if a == b then none else some a
   let modelJ := if gops.isEmpty then Json.null else namesJson (dedupSurvivors respPairs)
   let implJ := if gops.isEmpty then Json.null else
     namesJson ((defs.filter fun d => (d.getObjValAs? String "kind").toOption == some "enum" && ((d.getObjValAs? String "name").toOption.getD "").endsWith "Response").map fun d => ((d.getObjValAs? String "name").toOption.getD "").toList)
   let branch := s!"t{typeDefs.length}" ++ (if defs.any (fun d => ((arr (fieldD d "fields" (Json.arr #[]))).toOption.getD []).any fun f => ((arr (fieldD f "edges" (Json.arr #[]))).toOption.getD []).any fun e => match e with | .arr #[_, .str "box"] => true | _ => false) then "+box" else "")
-  pure (Json.mkObj [("model", modelJ), ("match", modelJ == implJ), ("judge", judge), ("branch", if typeDefs.isEmpty then "trivial" else (if gops.isEmpty then branch else branch ++ s!"+grp{respPairs.length - (dedupSurvivors respPairs).length}")),
+  let modelJ := if boxModel == Json.null then modelJ else Json.mkObj [("survivors", modelJ), ("boxed", boxModel), ("variant_order", Json.arr rtOrderModel.toArray)]
+  let implJ := if boxModel == Json.null then implJ else Json.mkObj [("survivors", implJ), ("boxed", boxImpl), ("variant_order", Json.arr rtOrderImpl.toArray)]
+  pure (Json.mkObj [("model", modelJ), ("match", modelJ == implJ), ("box_diff", Json.arr boxDiff.toArray), ("judge", judge), ("branch", if typeDefs.isEmpty then "trivial" else (if gops.isEmpty then branch else branch ++ s!"+grp{respPairs.length - (dedupSurvivors respPairs).length}")),
     ("detail", Json.mkObj [("undefined", Json.arr (undefinedNames.map Json.str).toArray), ("orphans", Json.arr (orphans.map Json.str).toArray),
       ("size_cycle", Json.arr (sizeCyc.map (fun p => str p.1)).toArray), ("default_cycle", Json.arr (defCyc.map (fun p => str p.1)).toArray)])])
 
